@@ -394,6 +394,10 @@ _BODY = "P:self.sub_graph.write_uml_blocks("
 _LOOPED = f"(([({_IND} Add 'repeat')] Add {_BODY}(P:indent Add P:tab_size)," \
           f"tab_size=P:tab_size)) Add [({_IND} Add 'repeat while')])"
 _PLAIN = f"{_BODY}P:indent,tab_size=P:tab_size)"
+_SEPN = ("OPERATOR_PATH_FUNCTION_MAP[P:node.operator_type](each(enumerate("
+         "reversed(P:dfs_successor_dict[P:node])))[0])")
+_OPN = ("PUMLOperatorNode(each(P:operator.value[:2]),P:self.get_occurrence_count("
+        "each(P:operator.value[:2]).value))")
 PUML_TABLE: dict[str, list[tuple]] = {
     "PUMLGraph.create_event_node": [
         ("the node carries name, a fresh occurrence number, its types, its "
@@ -457,6 +461,46 @@ PUML_TABLE: dict[str, list[tuple]] = {
          ("PUMLGraph._order_nodes_from_dfs_successors_dict(each(enumerate("
           "reversed(P:dfs_successor_dict[P:node])))[1],P:dfs_successor_dict)",
           ), [("cmp", "P:node", "In", "P:dfs_successor_dict", "1")], [], ""),
+        ("in front of each branch of an operator that has branch separators "
+         "comes the separator for that position (none where the table says "
+         "none)", "call", "append", "[P:node]", (_SEPN,),
+         [("cmp", "P:node", "In", "P:dfs_successor_dict", "1"),
+          ("truth", "isinstance(P:node,PUMLOperatorNode)", "1"),
+          ("cmp", "P:node.operator_type", "In", "OPERATOR_PATH_FUNCTION_MAP",
+           "1"), ("cmp", _SEPN, "Is", "None", "0")], [], ""),
+    ],
+    "PUMLGraph.write_uml_blocks": [
+        ("the lines of every node of the linearisation are appended, in "
+         "order, each written at the indentation reached so far", "call",
+         "extend", "[]",
+         ("each(P:self._order_nodes_from_dfs_successors_dict(list("
+          "topological_sort(P:self))[0],dfs_successors(P:self,list("
+          "topological_sort(P:self))[0]))).write_uml_blocks(state(P:indent),"
+          "tab_size=P:tab_size)[0]",),
+         [("cmp", "0", "Eq", "len(list(topological_sort(P:self)))", "0")],
+         [], ""),
+        ("the collected lines are the result", "bind", "ret[0]", "", ("[]",),
+         [("cmp", "0", "Eq", "len(list(topological_sort(P:self)))", "0")],
+         [], ""),
+    ],
+    "PUMLGraph.create_operator_node_pair": [
+        ("both operator nodes of the pair are handed back", "call", "append",
+         "[]", (_OPN,), [], [], ""),
+        ("and both are part of the diagram", "call", "add_puml_node",
+         "P:self", (_OPN,), [], [], ""),
+        ("start first, end second", "ret", "", "", ("([][0],[][1])",), [],
+         [], ""),
+        ("each creation is counted, so the next operator of that kind gets "
+         "a different number", "call", "increment_occurrence_count",
+         "P:self", ("each(P:operator.value[:2]).value",), [], [], ""),
+    ],
+    "PUMLGraph.create_kill_node": [
+        ("a kill node is numbered, added to the diagram and handed back",
+         "ret", "", "", ("PUMLKillNode(P:self.kill_counts)",), [], [], ""),
+        ("... (added)", "call", "add_puml_node", "P:self",
+         ("PUMLKillNode(P:self.kill_counts)",), [], [], ""),
+        ("... (counted)", "store", "Add", "P:self.kill_counts", ("1",), [],
+         [], ""),
     ],
     "PUMLGraph.remove_dummy_start_event_nodes": [
         ("every dummy start node leaves the diagram", "call", "remove_node",
@@ -484,6 +528,12 @@ PUML_TABLE: dict[str, list[tuple]] = {
 
 # ---- loop bodies: kill paths and break points
 _SG = "P:sub_graph_node.sub_graph"
+_ENDN = ("{[each(P:sub_graph_node.sub_graph.nodes) for.. if (P:sub_graph_node."
+         "end_uid Eq each(P:sub_graph_node.sub_graph.nodes).uid)].pop()}")
+_STARTN = ("{[each(P:sub_graph_node.sub_graph.nodes) for.. if (P:sub_graph_node."
+           "start_uid Eq each(P:sub_graph_node.sub_graph.nodes).uid)].pop()}")
+_KE = ("get_all_kill_edges_from_loop_nodes_and_end_points(P:sub_graph_node."
+       f"sub_graph,P:sub_graph_node.sub_graph.nodes,{_ENDN},{_STARTN})")
 KILL_TABLE: dict[str, list[tuple]] = {
     # which model nodes a path of a gate stands for (compared with the
     # targets of the kill edges)
@@ -525,6 +575,31 @@ KILL_TABLE: dict[str, list[tuple]] = {
            "P:node_to_node_kill_map", "1"),
           ("cmp", "1", "Eq", "len(each(P:node_class_graph.nodes)."
            "outgoing_logic)", "1")], [], ""),
+    ],
+    "find_and_add_loop_kill_paths_to_sub_graph_node": [
+        ("kill edges are searched in the BODY of the loop node, over all its "
+         "nodes, between the node with the loop's end uid and the one with "
+         "its start uid", "call",
+         "get_all_kill_edges_from_loop_nodes_and_end_points", "",
+         (_SG, f"{_SG}.nodes", _ENDN, _STARTN), [], [], ""),
+        ("every kill edge is recorded as (uid of its source, uid of its "
+         "target)", "call", "append", "[]",
+         (f"(each({_KE})[0].uid,each({_KE})[1].uid)",),
+         [("cmp", f"each({_KE})[0].uid", "Is", "None", "0"),
+          ("cmp", f"each({_KE})[1].uid", "Is", "None", "0")], [], ""),
+        ("and the kill paths of the body's nodes are marked from them",
+         "call", "add_loop_kill_paths_for_nodes", "",
+         ("get_node_to_node_map_from_edges([])", _SG), [], [], ""),
+    ],
+    "get_all_kill_edges_from_loop_nodes_and_end_points": [
+        ("an edge that leaves a node with several successors towards events "
+         "from which no end point is reachable is a kill edge (not for the "
+         "end points themselves)", "yield", "", "",
+         ("each(P:graph.out_edges(each(P:loop_nodes)))",),
+         [("cmp", "each(P:loop_nodes)", "In", "P:end_points", "0"),
+          ("le", "len(P:graph.out_edges(each(P:loop_nodes)))", "1", "0"),
+          ("truth", "all((Not(has_path(P:graph,each(P:graph.successors(each("
+           "P:loop_nodes))),each(P:end_points))) for..))", "1")], [], ""),
     ],
     "update_sub_graph_node_break_points": [
         ("every node of the body whose uid is a break uid of the loop is "
@@ -798,5 +873,41 @@ NODE_TABLE: dict[str, list[tuple]] = {
                        "1")], [], ""),
         ("else: all flags", "ret", "", "", ("all(P:self.is_loop_kill_path)",),
          [("cmp", "0", "Eq", "len(P:self.is_loop_kill_path)", "0")], [], ""),
+    ],
+}
+
+
+# ---- event graph -> model-node graph
+_EV = "each(P:event_graph.nodes(data=True))[0]"
+_IT = "each({}.items())"
+_LOOPN = [("truth", f"isinstance({_IT}[0],LoopEvent)", "1"),
+          ("truth", f"isinstance({_IT}[1],SubGraphNode)", "1")]
+GRAPH_TABLE: dict[str, list[tuple]] = {
+    "create_node_graph_from_event_graph": [
+        ("every event of the graph gets its model node, remembered under "
+         "the event", "store", "", f"{{}}[{_EV}]",
+         (f"create_node_from_event({_EV})",), [], [], ""),
+        ("every edge of the event graph becomes an edge between the two "
+         "model nodes, in the same direction", "call",
+         "update_graph_with_node_tuple", "",
+         ("NodeTuple(out_node={}[each(P:event_graph.edges)[0]],in_node={}["
+          "each(P:event_graph.edges)[1]])", "DiGraph()"), [], [], ""),
+        ("every model node gets the outgoing logic of ITS event", "call",
+         "update_outgoing_logic_nodes", "", (f"{_IT}[0]", f"{_IT}[1]"), [],
+         [], ""),
+        ("the body of a loop event is translated into the body of its "
+         "model node", "store", "", f"{_IT}[1].sub_graph",
+         (f"create_node_graph_from_event_graph({_IT}[0].sub_graph)",),
+         _LOOPN, [], ""),
+        ("the graph that was filled is the one returned", "ret", "", "",
+         ("DiGraph()",), [], [], ""),
+    ],
+    "LogicBlockHolder.is_on_lonely_merge_path": [
+        ("the current path (the LAST one) is the lonely merge path", "ret",
+         "", "", ("((len(P:self.paths) Sub 1) Eq P:self.lonely_merge_index)",),
+         [("cmp", "P:self.lonely_merge_index", "Is", "None", "0")], [], ""),
+        ("a block without lonely merge is never on it", "ret", "", "",
+         ("False",), [("cmp", "P:self.lonely_merge_index", "Is", "None",
+                       "1")], [], ""),
     ],
 }
